@@ -218,6 +218,26 @@ theorem transport_fault_data_send (l : Local) (hopen : l.me.closed = false) (htx
     simp [heartbeat, hopen, hs, hc, sendMsg, sendRaw, htx, Msg.ct, shutdown_me]
 
 
+/-- A session that was used by a connection ending in a fatal failure is not resumed any more,
+    whichever connection of its history that was — the first one or a later, itself resumed, one —
+    and however many orderly ones surround it; a history of orderly closes keeps it resumable. -/
+theorem fatal_end_invalidates_session (before after : List ConnEnd) :
+    nextResumes (before ++ .fatal :: after) = false ∧
+    (∀ ends : List ConnEnd, (∀ e ∈ ends, e = .orderly) → nextResumes ends = true) := by
+  constructor
+  · induction before with
+    | nil => rfl
+    | cons e rest ih => cases e <;> simp [nextResumes, sessionAfter] at ih ⊢ <;> exact ih
+  · intro ends h
+    induction ends with
+    | nil => rfl
+    | cons e rest ih =>
+      have he := h e (by simp)
+      subst he
+      simpa [nextResumes, sessionAfter] using ih (fun e he => h e (by simp [he]))
+
+example : nextResumes [.orderly, .fatal] = false ∧ nextResumes [.orderly, .orderly] = true := by decide
+
 /-! ### close(), makefile() reference counting, the two directions' close in every order -/
 
 /-- `makefile()` adds a reference: the next close() only drops it; the connection stays open, nothing
@@ -345,7 +365,7 @@ theorem gen_write_and_send_failure_match_model :
     Gen.Conn.sendFailPeekOutcome = "shutdown_false_raise_alert_else_reraise" ∧
     Gen.Conn.sendFailElse = "shutdown_false_for_types_then_reraise" ∧
     -- a failed send closes the connection inside `_sendMsgThroughSocket` exactly for the generated content types
-    (∀ m ∈ [Msg.keyUpdate 0, Msg.certRequest 1 false, Msg.heartbeat 1 [] 16, Msg.alert 1 0, Msg.appData [1]],
+    (∀ m ∈ [Msg.keyUpdate 0, Msg.certRequest 1 0, Msg.heartbeat 1 [] 16, Msg.alert 1 0, Msg.appData [1]],
       (sendMsg m ⟨{ isClient := false, ver13 := true, txDead := true }, {}, {}⟩).2.me.closed =
         Gen.Conn.sendFailCloseTypes.contains m.ct) ∧
     (∀ ig : Bool,
